@@ -297,6 +297,8 @@ def main():
     ap.add_argument('--limit', type=int, default=0)
     ap.add_argument('--no-tests', action='store_true')
     ap.add_argument('--list', action='store_true')
+    ap.add_argument('--resume', action='store_true', help='skip mutants already present in --out')
+    ap.add_argument('--only', default='', help='JSONL of mutants to (re)run (file, line, desc)')
     args = ap.parse_args()
     files = []
     for root, _dirs, names in os.walk(os.path.join(args.repo, 'edzed')):
@@ -309,6 +311,13 @@ def main():
     muts = []
     for f in sorted(files):
         muts.extend(mutants_of(os.path.join(args.repo, f), f))
+    if args.only:
+        want = {(r['file'], r['line'], r['desc']) for r in map(json.loads, open(args.only))}
+        muts = [m for m in muts if (m['file'], m['line'], m['desc']) in want]
+    done = set()
+    if args.resume and os.path.isfile(args.out):
+        done = {(r['file'], r['line'], r['desc']) for r in map(json.loads, open(args.out))}
+        muts = [m for m in muts if (m['file'], m['line'], m['desc']) not in done]
     if args.limit:
         muts = muts[:args.limit]
     print(f"{len(muts)} mutants over {len(files)} files", flush=True)
@@ -319,7 +328,7 @@ def main():
     base = tempfile.mkdtemp(prefix='edzed-mut-')
     n_det = n_killed = n_surv = 0
     try:
-        with mp.Pool(args.jobs) as pool, open(args.out, 'w', encoding='utf-8') as out:
+        with mp.Pool(args.jobs) as pool, open(args.out, 'a' if args.resume else 'w', encoding='utf-8') as out:
             jobs = [(i, m, args.repo, base, not args.no_tests) for i, m in enumerate(muts)]
             for res in pool.imap_unordered(work, jobs, chunksize=1):
                 out.write(json.dumps(res) + '\n')
